@@ -37,7 +37,7 @@ import sys
 from concurrent.futures import ProcessPoolExecutor
 from pathlib import Path
 
-TOOL_VERSION = "racetable-6"
+TOOL_VERSION = "racetable-7"
 CLANG = os.environ.get("BFL_CLANG", "clang++-14")
 EIGEN_INC = "/usr/include/eigen3"
 
@@ -167,6 +167,8 @@ def field_kind(q, dq):
             return "mutex"
         if CONDVAR_T.match(t):
             return "condvar"
+        if re.match(r"^(class )?std::j?thread$", t):
+            return "thread"
     d = dq.strip()
     if SCALAR_T.match(d) or d.endswith("*") or d.endswith("&") or d.startswith("enum ") or SCALAR_T.match(q.strip()):
         return "plain"
@@ -308,6 +310,9 @@ class TU:
             for c in w.calls:
                 if c not in b["calls"]:
                     b["calls"].append(c)
+            for t in w.tops:
+                if t not in b.setdefault("tops", []):
+                    b["tops"].append(t)
 
 
 class Walker:
@@ -315,7 +320,7 @@ class Walker:
 
     def __init__(self, tu, key):
         self.tu, self.key = tu, key
-        self.rows, self.calls = [], []
+        self.rows, self.calls, self.tops = [], [], []
         self.held = []          # list of (var decl id, frozenset of (cls, mutexname)), innermost last
         self.stack = []         # ancestors of the node being visited
         self.in_thread_ctor = 0
@@ -328,6 +333,9 @@ class Walker:
                 if a and a.get("id") in self.tu.fields:
                     f = self.tu.fields[a["id"]]
                     self.row(f, "w", True, c)
+                    if f[2] == "thread":
+                        self.tops.append({"cls": f[0], "field": f[1], "op": "spawn" if self.refers_to_library_function(c) else "move",
+                                          "file": self.tu.rel(c.get("_pos", ("", 0, 0))[0]), "line": c.get("_pos", ("", 0, 0))[1]})
                 self.visit_children(c)
             elif c["kind"] in ("CompoundStmt", "CXXTryStmt"):
                 self.visit(c)
@@ -517,9 +525,49 @@ class Walker:
             return
         acc = self.classify(m, f)
         self.row(f, acc, self.base_is_this(m), m)
+        if f[2] == "thread":
+            file, line, col = m.get("_pos", ("", 0, 0))
+            self.tops.append({"cls": f[0], "field": f[1], "op": self.thread_op(m), "file": self.tu.rel(file), "line": line})
         via = self.via_callee(m, f)
         if via is not None:
             self.rows[-1]["via"] = list(via)
+
+    def refers_to_library_function(self, n):
+        if n.get("kind") == "DeclRefExpr" and ((n.get("referencedDecl") or {}).get("id") in self.tu.funcs):
+            return True
+        return any(self.refers_to_library_function(c) for c in inner(n))
+
+    def thread_op(self, m):
+        """what is done to a std::thread member: spawn (assigned a thread constructed from a library
+        function), join, joinable, detach, move (moved from / swapped / assigned another thread), query, other"""
+        chain = list(reversed(self.stack))
+        cur, i = m, 0
+        while i < len(chain) and (chain[i]["kind"] == "ParenExpr" or (chain[i]["kind"] == "ImplicitCastExpr"
+                                  and chain[i].get("castKind") in ("NoOp", "DerivedToBase", "UncheckedDerivedToBase"))):
+            cur = chain[i]
+            i += 1
+        if i >= len(chain):
+            return "other"
+        p = chain[i]
+        if p["kind"] == "MemberExpr" and inner(p) and inner(p)[0] is cur:
+            nm = p.get("name", "")
+            if nm in ("join", "detach", "joinable"):
+                return nm
+            if nm in ("get_id", "native_handle"):
+                return "query"
+            if nm == "swap":
+                return "move"
+            return "other"
+        if p["kind"] == "CXXOperatorCallExpr":
+            cs = inner(p)
+            callee = self.strip(cs[0]) if cs else None
+            nm = ((callee or {}).get("referencedDecl") or {}).get("name", "")
+            if nm == "operator=" and len(cs) > 2 and cs[1] is cur:
+                return "spawn" if self.refers_to_library_function(cs[2]) else "move"
+            return "move"
+        if p["kind"] == "CallExpr":
+            return "move"          # std::move(t), std::swap(t, u), passed by reference
+        return "other"
 
     def via_callee(self, m, f):
         """the member object (of a class type) is only used as the object of a call of a function of the
@@ -745,6 +793,9 @@ def merge(res):
             for c in b["calls"]:
                 if c not in d["calls"]:
                     d["calls"].append(c)
+            for t in b.get("tops", []):
+                if t not in d.setdefault("tops", []):
+                    d["tops"].append(t)
 
     # class hierarchy
     def ancestors(c, seen=None):
@@ -855,10 +906,16 @@ def merge(res):
                              "locks": sorted(fid[tuple(l.split("::", 1))] for l in r["locks"] if tuple(l.split("::", 1)) in fid),
                              "file": r["file"], "line": r["line"], "col": r["col"]})
     accesses.sort(key=lambda a: (a["meth"], a["file"], a["line"], a["col"], a["field"], a["acc"]))
+    thread_ops = []
+    for k in mkeys:
+        for t in bodies.get(k, {}).get("tops", []):
+            if (t["cls"], t["field"]) in fid:
+                thread_ops.append({"meth": mid[k], "field": fid[(t["cls"], t["field"])], "op": t["op"], "file": t["file"], "line": t["line"]})
+    thread_ops.sort(key=lambda t: (t["meth"], t["line"], t["op"]))
     clist = sorted({(mid[a], mid[b], kd) for a, b, kd in calls})
     slist = sorted({(mid[a], mid[b], kd, th, tuple(sorted(fid[tuple(l.split("::", 1))] for l in lk if tuple(l.split("::", 1)) in fid)))
                     for a, b, kd, th, lk in sites})
-    return {"fields": fields, "methods": mlist, "accesses": accesses, "accesses_via": via_rows,
+    return {"fields": fields, "methods": mlist, "accesses": accesses, "accesses_via": via_rows, "thread_ops": thread_ops,
             "calls": [{"caller": a, "callee": b, "kind": kd} for a, b, kd in clist],
             "call_sites": [{"caller": a, "callee": b, "kind": kd, "this": th, "locks": list(lk)} for a, b, kd, th, lk in slist],
             "classes": {c: {"bases": classes[c]["bases"], "ancestors": anc[c]} for c in sorted(classes)}}
@@ -965,8 +1022,34 @@ def discipline(facts, roots):
                 break
         verdicts.append({"field": f, "name": F[f]["cls"] + "::" + F[f]["name"], "kind": F[f]["kind"], "ok": wit is None,
                          "witness": None if wit is None else {"controller": wit[0], "filter": wit[1]}})
+    # thread handles (mirror of Table.joinCertifiedIn)
+    TO = facts.get("thread_ops", [])
+    SC, SF = reach["controller"], reach["filter"]
+    is_thread = lambda f: F[f]["kind"] == "thread"
+    nm = lambda i: M[i]["name2"]
+    BOOT, WAIT = "FilteringAlgorithm::boot", "FilteringAlgorithm::wait"
+    hp = []
+    for o in TO:
+        where = "%s (%s:%d)" % (M[o["meth"]]["qual"], o["file"].split("/")[-1], o["line"])
+        h = F[o["field"]]["cls"] + "::" + F[o["field"]]["name"]
+        if o["meth"] in SF:
+            hp.append({"key": "%s:%s" % (M[o["meth"]]["qual"], o["op"]), "what": "the filtering thread operates on the thread handle %s: %s in %s" % (h, o["op"], where)})
+        if o["meth"] in SC:
+            ok = (o["op"] == "spawn" and nm(o["meth"]) == BOOT) or (o["op"] == "join" and nm(o["meth"]) == WAIT) or o["op"] in ("joinable", "query")
+            if not ok:
+                hp.append({"key": "%s:%s" % (M[o["meth"]]["qual"], o["op"]),
+                           "what": "%s performs `%s` on the thread handle %s: the join in wait() no longer orders the filtering thread's accesses before what follows wait()" % (where, o["op"], h)})
+    if not any(o["op"] == "join" and nm(o["meth"]) == WAIT and o["meth"] in SC for o in TO):
+        hp.append({"key": "FilteringAlgorithm::wait:no-join", "what": "wait() contains no join() of the filtering thread"})
+    for a in A:
+        if is_thread(a["field"]) and (a["meth"] in SF or (a["meth"] in SC and nm(a["meth"]) not in (BOOT, WAIT))):
+            k = "%s:access" % M[a["meth"]]["qual"]
+            if not any(p["key"].startswith(M[a["meth"]]["qual"] + ":") for p in hp):
+                hp.append({"key": k, "what": "%s (%s:%d) touches the thread handle %s::%s outside boot()/wait()" % (
+                    M[a["meth"]]["qual"], a["file"].split("/")[-1], a["line"], F[a["field"]]["cls"], F[a["field"]]["name"])})
     missing = {role: [n for n in names if not any(m["name2"] == n for m in M)] for role, names in roots.items()}
-    return {"roots": rootids, "reach": {r: sorted(s) for r, s in reach.items()}, "shared": shared, "verdicts": verdicts, "missing_roots": missing}
+    return {"join_certified": not hp, "handle_problems": hp,
+            "roots": rootids, "reach": {r: sorted(s) for r, s in reach.items()}, "shared": shared, "verdicts": verdicts, "missing_roots": missing}
 
 
 # ----------------------------------------------------------------------------- independent textual cross-check
@@ -1050,10 +1133,12 @@ def code(s):
 def encode_table(facts):
     """the table as the token list of the driver's `c10` entries (lean/BFL/Driver/Race.lean)"""
     F, M, A, C = facts["fields"], facts["methods"], facts["accesses"], facts["calls"]
-    fk = {"atomic": 0, "plain": 1, "mutex": 2, "condvar": 3, "other": 4}
+    fk = {"atomic": 0, "plain": 1, "mutex": 2, "condvar": 3, "other": 4, "thread": 5}
+    tk = {"spawn": 0, "join": 1, "joinable": 2, "detach": 3, "move": 4, "query": 5, "other": 6}
+    TO = facts.get("thread_ops", [])
     ak = {"r": 0, "w": 1, "rw": 2}
     ck = {"direct": 0, "virtual": 1, "ref": 2, "spawn": 3}
-    t = [len(F), len(M), len(A), len(C)]
+    t = [len(F), len(M), len(A), len(C), len(TO)]
     for f in F:
         t += [code(f["cls"]), code(f["name"]), fk[f["kind"]]]
     for m in M:
@@ -1062,6 +1147,8 @@ def encode_table(facts):
         t += [a["meth"], a["field"], ak[a["acc"]], int(a["self"]), a["line"], len(a["locks"])] + list(a["locks"])
     for c in C:
         t += [c["caller"], c["callee"], ck[c["kind"]]]
+    for o in TO:
+        t += [o["meth"], o["field"], tk[o["op"]], o["line"]]
     return " ".join(str(x) for x in t)
 
 
@@ -1120,7 +1207,15 @@ def emit_lean(facts, disc=None):
     w("/-- call edges (virtual calls already expanded to the overriders known in the library) -/")
     w("def calls : List Call := " + (" ++ ".join("calls%d" % c for c in range(nchunks)) if nchunks else "[]"))
     w("")
-    w("def table : Table := ⟨fields, methods, accesses, calls⟩")
+    w("/-- operations on std::thread members: function, field, operation, line -/")
+    w("def threadOps : List ThreadOp := [")
+    TO = facts.get("thread_ops", [])
+    for i, t in enumerate(TO):
+        w("  ⟨%d, %d, .%s, %d⟩%s -- %s %s.%s" % (t["meth"], t["field"], t["op"], t["line"], "," if i + 1 < len(TO) else "",
+                                              M[t["meth"]]["qual"], F[t["field"]]["cls"], F[t["field"]]["name"]))
+    w("]")
+    w("")
+    w("def table : Table := ⟨fields, methods, accesses, calls, threadOps⟩")
     w("")
     if disc is not None:
         bad = [v for v in disc["verdicts"] if not v["ok"]]
